@@ -26,6 +26,7 @@ struct ghost_t {
   int ext_calls;        /* 1 once dequeue_external was called */
   int foreach_budget;   /* bound on the items a <foreach> iterates over (see assumptions) */
   int last_ext_null;
+  unsigned char done[USCXML_MAX_NR_STATES_BYTES]; /* states for which raise_done_event was called during the step */
   int phase, last;      /* ORDER_LOG: 0 nothing yet, 1 exits, 2 transition content, 3 entries; index of the last exit/entry */
 } G;
 #define g_calls G.calls
@@ -66,6 +67,10 @@ static int stub_is_true(const uscxml_ctx *ctx, const char *expr) { g_calls = 1; 
 static int stub_raise_done_event(const uscxml_ctx *ctx, const uscxml_state *state, const uscxml_elem_donedata *donedata) {
   g_calls = 1;
   __CPROVER_assert(state >= &USCXML_MACHINE.states[0] && state < &USCXML_MACHINE.states[0] + NS, "C04.callback: raise_done_event receives a state of the machine");
+  if (state >= &USCXML_MACHINE.states[0] && state < &USCXML_MACHINE.states[0] + NS) {
+    int idx = (int)(state - &USCXML_MACHINE.states[0]);
+    G.done[idx >> 3] = (unsigned char)(G.done[idx >> 3] | (1u << (idx & 7)));
+  }
   return nondet_err();
 }
 /* ORDER_LOG (corpus/c12_content_order.scxml): <log expr="X<nn>"> in onexit, "E<nn>" in onentry, "T" in transitions */
@@ -183,6 +188,7 @@ static void setup_ctx(void) {
   g_ctx.exec_content_script = nondet_bool() ? stub_script : 0;
   g_ctx.invoke = stub_invoke;
   g_calls = 0; g_int_last_null = 0; g_ext_calls = 0; g_last_ext_null = 0; g_foreach_budget = 2; g_phase = 0; g_last = 0;
+  for (int k = 0; k < USCXML_MAX_NR_STATES_BYTES; k++) G.done[k] = 0;
 }
 
 void h_step(void) {
@@ -210,6 +216,37 @@ void h_step(void) {
     __CPROVER_assert(bytes_eq(g_ctx.config, g_pre.config) && bytes_eq(g_ctx.history, g_pre.history), "C04.lifecycle: a finished machine is not changed by further steps");
   if (g_ret == USCXML_ERR_IDLE)
     __CPROVER_assert(bytes_eq(g_ctx.config, g_pre.config) && bytes_eq(g_ctx.history, g_pre.history), "C04.lifecycle: an idle step leaves configuration and history unchanged");
+
+  /* C04 life cycle: the machine is flagged as done only when a final child of <scxml> has been entered */
+  if ((g_ctx.flags & USCXML_CTX_TOP_LEVEL_FINAL) && !(g_pre.flags & USCXML_CTX_TOP_LEVEL_FINAL) && g_ret == USCXML_ERR_OK) {
+    int top_final = 0;
+    for (int i = 1; i < D_N; i++) if (d_kind[i] == K_FINAL && d_parent[i] == 0 && sp_bit(g_ctx.config, i)) top_final = 1;
+    __CPROVER_assert(top_final, "C04.lifecycle: TOP_LEVEL_FINAL is set only when a final child of <scxml> is active (a nested final raises done.state.<parent> instead)");
+  }
+  /* C04 done events (Recommendation 3.7 / enterStates): entering a final state raises done.state.<parent>; if the
+     grandparent is a parallel state all of whose children are then in a final state, done.state.<grandparent> too */
+  if (g_pre_inv && g_ret == USCXML_ERR_OK && legal_config(g_ctx.config)) {
+    int in_final[D_N];
+    for (int i = D_N - 1; i >= 0; i--) {
+      in_final[i] = 0;
+      if (!sp_bit(g_ctx.config, i)) continue;
+      if (sp_compound(i)) { for (int j = i + 1; j < D_N; j++) if (sp_child(j, i) && d_kind[j] == K_FINAL && sp_bit(g_ctx.config, j)) in_final[i] = 1; }
+      else if (d_kind[i] == K_PARALLEL) { in_final[i] = 1; for (int j = i + 1; j < D_N; j++) if (sp_child(j, i) && sp_proper(j) && !in_final[j]) in_final[i] = 0; }
+    }
+    for (int f = 1; f < D_N; f++) {
+      if (d_kind[f] != K_FINAL || !sp_bit(g_ctx.config, f) || sp_bit(g_pre.config, f)) continue; /* newly entered final states */
+      int p = d_parent[f];
+      wit_row = f;
+      if (p == 0) {
+        __CPROVER_assert(g_ctx.flags & USCXML_CTX_TOP_LEVEL_FINAL, "C04.lifecycle: entering a final child of <scxml> flags the machine as done");
+        continue;
+      }
+      __CPROVER_assert(sp_bit(G.done, p), "C04.done: entering a final state raises done.state.<parent>");
+      int gp = d_parent[p];
+      if (d_kind[gp] == K_PARALLEL && in_final[gp])
+        __CPROVER_assert(sp_bit(G.done, gp), "C04.done: when the last region of a parallel state reaches a final state, done.state.<parallel> is raised");
+    }
+  }
 
   /* C02: Inv is inductive */
   if (g_pre_inv && (g_ret == USCXML_ERR_OK || g_ret == USCXML_ERR_IDLE || g_ret == USCXML_ERR_DONE)) {
